@@ -1,5 +1,5 @@
 """C09 - a port serialises at its line rate and tail-drops exactly at its limit"""
-from . import netdev as N, resources as R, elements
+from . import netdev as N, resources as R, elements, deps
 
 def check(ctx):
     N.run_tables(ctx, 'C09', [('Port', '__init__'), ('Port', 'put'), ('Port', 'run'), ('REDPort', '__init__'),
@@ -12,6 +12,7 @@ def check(ctx):
     elements.override_keeps_base_effects(ctx, 'C09')
     elements.spawn_sites(ctx, 'C09', only=('Port', 'REDPort'))
     elements.class_method_sets(ctx, 'C09', only=('Port', 'REDPort', 'PortMonitor'))
+    deps.element_layers(ctx, 'C09')
     return ('Static: Port.put (thresholds held+size > qlimit / waiting >= qlimit-1 / never for None, byte accounting, hop '
             'stamp), Port.run (one packet at a time, 8*size/rate, bytes released on every path, one forward), REDPort.put '
             '(EWMA gain, three regions, one uniform draw) and PortMonitor.run compared with reference tables; inc/dec '
